@@ -149,11 +149,14 @@ def classify(ck, rows, case_rows, stats):
             # the genuine message must conform to the TLA+ grammar table and be accepted by the real code:
             # otherwise the binding itself is broken, which is not a verdict about the property
             if not r["conforms"]:
-                raise vlib.ToolError(f"genuine {r['tpl']} does not conform to its grammar table: {r['detail']}")
+                stats["tool_errors"].append(f"genuine {r['tpl']} does not conform to its grammar table / cannot be set up for {r['entry']} {r.get('phase', '')}: {r['detail']}")
+                continue
             if r["res"] != "value":
-                raise vlib.ToolError(f"genuine {r['tpl']} is not accepted by {r['entry']} {r.get('phase', '')}: {r['res']} {r['detail']}")
+                stats["tool_errors"].append(f"genuine {r['tpl']} is not accepted by {r['entry']} {r.get('phase', '')}: {r['res']} {r['detail']}")
+                continue
             if r.get("effect") is False and (r["entry"] in ALWAYS_EFFECT or r["tpl"] in IN_PHASE.get((r["entry"], r.get("phase")), [])):
-                raise vlib.ToolError(f"genuine {r['tpl']} has no effect on {r['entry']} in phase {r.get('phase')}: {r.get('note')}")
+                stats["tool_errors"].append(f"genuine {r['tpl']} has no effect on {r['entry']} in phase {r.get('phase')}: {r.get('note')}")
+                continue
             stats["tpl_seen"].add((r["entry"], r["tpl"], r.get("phase")))
             stats["templates"] = len(stats["tpl_seen"])
     seen = set()
@@ -167,7 +170,9 @@ def classify(ck, rows, case_rows, stats):
         if res in SKIP_RES:
             continue
         if res in ("unsupported", "no_template", "setup_failed"):
-            raise vlib.ToolError(f"harness cannot execute case {r['case']}: {res} {r['entry']} {r['tpl']} {r.get('detail', '')[:300]}")
+            # the machinery failed for this case; it must not hide verdicts on the cases that were executed
+            stats["tool_errors"].append(f"harness cannot execute case {r['case']}: {res} {r['entry']} {r['tpl']} {r.get('detail', '')[:300]}")
+            continue
         stats["executed"] += 1
         stats["distinct"].add((r["entry"], r.get("phase"), r["tpl"], r["field"], r["mut"]))
         post = r.get("post")
@@ -183,13 +188,13 @@ def classify(ck, rows, case_rows, stats):
         ck.divergence(sig_of(r), rec)
     missing = set(range(len(case_rows))) - seen
     if missing:
-        raise vlib.ToolError(f"{len(missing)} cases were not executed (first: {sorted(missing)[:3]})")
+        stats["tool_errors"].append(f"{len(missing)} cases were not executed (first: {sorted(missing)[:3]})")
 
 
 def run(tier):
     ck = vlib.Check(PID, tier, level="exploration")
     vlib.build_harness(["inputs"])
-    stats = {"templates": 0, "executed": 0, "by_res": {}, "distinct": set(), "tpl_seen": set()}
+    stats = {"templates": 0, "executed": 0, "by_res": {}, "distinct": set(), "tpl_seen": set(), "tool_errors": []}
     total_cases = 0
     bfs_done = 0
     finished = True
@@ -267,6 +272,26 @@ def run(tier):
         "global allocator in the harness process",
         f"{VARIANTS[tier]} concretisations per class (as built, and with VERIF_SEED noise in the unconstrained bytes)",
     ]
+    settle(ck, stats)
+
+
+def settle(ck, stats):
+    """Violations on executed cases take precedence; a failure of the machinery (an entry point that could not be set
+    up, a genuine message that no longer conforms ...) is a tool error only if nothing was found, and is listed anyway."""
+    errs = stats["tool_errors"]
+    seen = []
+    for e in errs:
+        k = e[:90]
+        if k not in [s[:90] for s in seen]:
+            seen.append(e)
+    ck.notes += [f"tool error ({len(errs)} in total): {e}" for e in seen[:10]]
+    ck.cov["exhaustive"] = ck.cov.get("exhaustive", False) and not errs
+    if errs and not ck.violations:
+        for e in seen[:5]:
+            vlib.log("  " + e)
+        raise vlib.ToolError(f"{len(errs)} cases / templates could not be executed and no violation was found elsewhere: {seen[0]}")
+    for e in seen[:5]:
+        print(f"TOOL-NOTE property={PID} {e[:300]}")
     ck.finish()
 
 
@@ -293,12 +318,12 @@ def replay(path):
             if all(c[k] == case[k] for k in ("entry", "phase", "tpl", "field", "mut"))]
     cases = os.path.join(ck.dir, "cases_replay.ndjson")
     vlib.write_ndjson(cases, keep)
-    stats = {"templates": 0, "executed": 0, "by_res": {}, "distinct": set(), "tpl_seen": set()}
+    stats = {"templates": 0, "executed": 0, "by_res": {}, "distinct": set(), "tpl_seen": set(), "tool_errors": []}
     rows = execute(ck, "replay", grammar, cases, 1, VARIANTS["thorough"])
     classify(ck, rows, keep, stats)
     ck.cov.update(traces_validated_against_impl=stats["executed"], evaluations=stats["executed"], samples=keep[:1],
                   distinct_nontrivial=len(stats["distinct"]))
-    ck.finish()
+    settle(ck, stats)
 
 
 def selftest():
